@@ -227,3 +227,5 @@ def rules(ctx):
     hand_back(ctx)
     refusals(ctx)
     tie_prefilter(ctx)
+    from .C13 import tour_vanishes_rule
+    tour_vanishes_rule(ctx, "R2")
